@@ -326,4 +326,32 @@ theorem crd_range_sufficient_aux (solution stamp datum epoch : Str) (wn : Bool) 
   obtain ⟨a, b, c, d, f, g⟩ := hs e.2.1 hmem _ _ _ hxyz
   exact crdEntryOk_of e (by omega) a b c d f g
 
+/-! ### headers of the VEL and CLU files -/
+
+def noBreaks (t : Str) : Prop := t.all (· != '\n') = true ∧ t.all (· != '\r') = true
+
+/-- header texts without line breaks give the VEL header the CRD parser skips (6 lines) -/
+theorem vel_header_ok (solution stamp datum : Str) (h1 : noBreaks solution) (h2 : noBreaks stamp) (h3 : noBreaks datum) :
+    ∃ hdr, headerText "bernese_vel" [solution, stamp, datum] = some hdr ∧ headerOk crdSpec hdr = true := by
+  have hok : allOk (headerOf "bernese_vel") ([solution, stamp, datum].map Value.str) = true := rfl
+  have hnl : textsAll (· != '\n') (headerOf "bernese_vel") ([solution, stamp, datum].map Value.str) =
+      (solution.all (· != '\n') && (stamp.all (· != '\n') && (datum.all (· != '\n') && true))) := rfl
+  have hcr : textsAll (· != '\r') (headerOf "bernese_vel") ([solution, stamp, datum].map Value.str) =
+      (solution.all (· != '\r') && (stamp.all (· != '\r') && (datum.all (· != '\r') && true))) := rfl
+  exact headerOk_of crdSpec (headerOf "bernese_vel") _ hok
+    (by rw [hnl, h1.1, h2.1, h3.1]; rfl) (by rw [hcr, h1.2, h2.2, h3.2]; rfl)
+    (by decide +kernel) (by decide +kernel) (by decide +kernel)
+
+/-- … and the CLU header the CLU parser skips (5 lines) -/
+theorem clu_header_ok (solution stamp : Str) (h1 : noBreaks solution) (h2 : noBreaks stamp) :
+    ∃ hdr, headerText "bernese_clu" [solution, stamp] = some hdr ∧ headerOk cluSpec hdr = true := by
+  have hok : allOk (headerOf "bernese_clu") ([solution, stamp].map Value.str) = true := rfl
+  have hnl : textsAll (· != '\n') (headerOf "bernese_clu") ([solution, stamp].map Value.str) =
+      (solution.all (· != '\n') && (stamp.all (· != '\n') && true)) := rfl
+  have hcr : textsAll (· != '\r') (headerOf "bernese_clu") ([solution, stamp].map Value.str) =
+      (solution.all (· != '\r') && (stamp.all (· != '\r') && true)) := rfl
+  exact headerOk_of cluSpec (headerOf "bernese_clu") _ hok
+    (by rw [hnl, h1.1, h2.1]; rfl) (by rw [hcr, h1.2, h2.2]; rfl)
+    (by decide +kernel) (by decide +kernel) (by decide +kernel)
+
 end Midgard.WriterFiles
